@@ -367,7 +367,7 @@ impl C19 {
                 true
             };
             // live sets: one bit flipped, for a register of every class and both ends of the range
-            for bit in [1u8, 5, 10, 27, 30, 31] {
+            for bit in [10u8, 30, 31] {
                 let li = n.live_in();
                 let flipped = if li.contains(&reg(bit)) { li - reg(bit) } else { li | reg(bit) };
                 let _ = n.set_live_in(flipped);
